@@ -250,6 +250,15 @@ def oracle(lines, outs):
                     found.append(("C06", "graph:non-ancestor-gradient-changed", "gradient of parameter %d changed by %s in backward(n%d) although it is not an ancestor" % (p, inc, n), i))
                 elif p not in sym.ancestors_params(n, through_blockers=False) and any(inc):
                     found.append(("C06", "graph:blocked-gradient-changed", "gradient of parameter %d changed by %s in backward(n%d) although it is reachable only through stop_gradient" % (p, inc, n), i))
+                # closed-form derivative where the history gives one without any model: the target is a Parameter
+                # node itself (d sum(w)/dw = 1), counted once per Parameter operator of p that is the target
+                g0, oid0, _ = sym.nodes[n]
+                kind0, _, p0 = sym.ops[(g0, oid0)]
+                if kind0 == "P" and not big:
+                    want = [1] * len(inc) if p0 == p else [0] * len(inc)
+                    if inc != want:
+                        found.append(("C06", "graph:backward-on-parameter-node", "backward(n%d) on the Parameter node of parameter %d added %s to the gradient of parameter %d (the derivative of the sum of its elements is %s)" % (n, p0, inc, p, want), i))
+                        found.append(("C01", "graph:backward-on-parameter-node", "backward(n%d) on the Parameter node of parameter %d added %s to the gradient of parameter %d, expected %s" % (n, p0, inc, p, want), i))
                 prev = block["prev_incs"].get(p)
                 if prev is not None and prev != inc and not big:
                     found.append(("C06", "graph:repeated-backward-differs", "second backward(n%d) added %s to parameter %d, the first added %s" % (n, inc, p, prev), i))
